@@ -338,6 +338,19 @@ def cgS (mod fn : String) (φ : String → Option String) :
     let after := freshLabel mod head.2 "loop_end"
     let cb := cgBS mod fn φ ((after.1, head.1) :: loops) body { env with lm := after.2 }
     ([(.label head.1, sp)] ++ cb.1 ++ [(.jump head.1, sp), (.label after.1, sp)], cb.2)
+  | loops, .forS sp name _ (.range rsp a b incl) (.mk _ _ stmts none), env =>
+    let head := freshLabel mod env.lm "loop_head"
+    let upd := freshLabel mod head.2 "loop_update"
+    let after := freshLabel mod upd.2 "loop_end"
+    let ca := cgE mod (ρS env.scopes) φ a after.2
+    let cb := cgE mod (ρS env.scopes) φ b ca.2
+    let fit := freshVar mod { env with scopes := [] :: env.scopes, lm := cb.2 } ("$iter_" ++ name)
+    let fhv := freshVar mod fit.2 name
+    let cbody := cgSs mod fn φ ((after.1, upd.1) :: loops) stmts fhv.2
+    (ca.1 ++ cb.1 ++ [(.intoRange incl, rsp), (.clone, sp), (.intoIter, sp), (.setVar fit.1, sp), (.label head.1, sp),
+        (.getVar fit.1, sp), (.iterAdvance, sp), (.setVar fhv.1, sp), (.jumpIfFalse after.1, sp)] ++ cbody.1 ++
+      [(.label upd.1, sp), (.jump head.1, sp), (.label after.1, sp)],
+     { cbody.2 with scopes := cbody.2.scopes.tail })
   | loops, .brk sp, env =>
     (match loops with
       | (b, _) :: _ => [(.jump b, sp)]
@@ -429,40 +442,49 @@ def cgFn (mod : String) (φ : String → Option String) (fd : FnDef) (stmts : Li
 namespace Frag
 
 mutual
-/-- The statement fragment; `inLoop`: `break`/`continue` are allowed. -/
-def okGS : Bool → Bool → Stmt → Bool
-  | _, _, .letS _ _ _ needsCast _ e => !needsCast && okGE e
-  | _, _, .exprS _ (.assign _ none (.ident _ _ _ false _ false) r) => okGE r
-  | _, _, .exprS _ (.assign _ (some op) (.ident _ _ _ false _ false) r) => !isLogical op && okGE r
-  | il, rt, .exprS _ (.ifE _ ty c t (some eb)) => ty.isNull && okGE c && okGBS il rt t && okGBS il rt eb
-  | il, rt, .exprS _ (.ifE _ ty c t none) => ty.isNull && okGE c && okGBS il rt t
-  | il, rt, .exprS _ (.tryE _ ty t _ c) => ty.isNull && okGBS false false t && okGBS il rt c
-  | il, rt, .exprS _ (.matchE _ ty c arms (some (.blockE db))) =>
-    ty.isNull && okGE c && okGArmsS il rt arms && okGBS il rt db
-  | _, _, .exprS _ (.call csp cty (.ident isp ity name g f si) args sw) =>
+/-- The statement fragment; `fr`: `for` loops are allowed; `il`: inside a loop (`break`/`continue` are
+allowed); `rt`: `return` is allowed. -/
+def okFS : Bool → Bool → Bool → Stmt → Bool
+  | _, _, _, .letS _ _ _ needsCast _ e => !needsCast && okGE e
+  | _, _, _, .exprS _ (.assign _ none (.ident _ _ _ false _ false) r) => okGE r
+  | _, _, _, .exprS _ (.assign _ (some op) (.ident _ _ _ false _ false) r) => !isLogical op && okGE r
+  | fr, il, rt, .exprS _ (.ifE _ ty c t (some eb)) => ty.isNull && okGE c && okFBS fr il rt t && okFBS fr il rt eb
+  | fr, il, rt, .exprS _ (.ifE _ ty c t none) => ty.isNull && okGE c && okFBS fr il rt t
+  | fr, il, rt, .exprS _ (.tryE _ ty t _ c) => ty.isNull && okFBS fr false false t && okFBS fr il rt c
+  | fr, il, rt, .exprS _ (.matchE _ ty c arms (some (.blockE db))) =>
+    ty.isNull && okGE c && okFArmsS fr il rt arms && okFBS fr il rt db
+  | _, _, _, .exprS _ (.call csp cty (.ident isp ity name g f si) args sw) =>
     if name == "throw" then
       !sw && decide (args.length = 1) && args.all (fun a => atomE a.2)
     else if name == "println" then
       cty.isNull && !sw && okGArgs args && oneNonAtom args && decide (args.length < 2 ^ 64)
     else !cty.isNull && okGE (.call csp cty (.ident isp ity name g f si) args sw)
-  | _, rt, .whileS _ c body => okGE c && okGBS true rt body
-  | _, rt, .loopS _ body => okGBS true rt body
-  | il, _, .brk _ => il
-  | il, _, .cont _ => il
-  | _, rt, .ret _ (some e) => rt && okGE e
-  | _, _, _ => false
-def okGSs : Bool → Bool → List Stmt → Bool
-  | _, _, [] => true
-  | il, rt, s :: ss => okGS il rt s && okGSs il rt ss
-def okGBS : Bool → Bool → Block → Bool
-  | il, rt, .mk _ _ stmts none => okGSs il rt stmts
-  | _, _, _ => false
+  | fr, _, rt, .whileS _ c body => okGE c && okFBS fr true rt body
+  | fr, _, rt, .loopS _ body => okFBS fr true rt body
+  | fr, _, rt, .forS _ _ _ (.range _ a b _) (.mk _ _ stmts none) => fr && okGE a && okGE b && okFSs fr true rt stmts
+  | _, il, _, .brk _ => il
+  | _, il, _, .cont _ => il
+  | _, _, rt, .ret _ (some e) => rt && okGE e
+  | _, _, _, _ => false
+def okFSs : Bool → Bool → Bool → List Stmt → Bool
+  | _, _, _, [] => true
+  | fr, il, rt, s :: ss => okFS fr il rt s && okFSs fr il rt ss
+def okFBS : Bool → Bool → Bool → Block → Bool
+  | fr, il, rt, .mk _ _ stmts none => okFSs fr il rt stmts
+  | _, _, _, _ => false
 /-- The arms of a `match` statement: literal patterns, statement blocks as bodies. -/
-def okGArmsS : Bool → Bool → List (List Expr × Expr) → Bool
-  | _, _, [] => true
-  | il, rt, (lits, .blockE b) :: rest => lits.all litE && okGBS il rt b && okGArmsS il rt rest
-  | _, _, _ => false
+def okFArmsS : Bool → Bool → Bool → List (List Expr × Expr) → Bool
+  | _, _, _, [] => true
+  | fr, il, rt, (lits, .blockE b) :: rest => lits.all litE && okFBS fr il rt b && okFArmsS fr il rt rest
+  | _, _, _, _ => false
 end
+
+/-- The statement fragment without `for` loops. -/
+abbrev okGS (il rt : Bool) (st : Stmt) : Bool := okFS false il rt st
+abbrev okGSs (il rt : Bool) (ss : List Stmt) : Bool := okFSs false il rt ss
+abbrev okGBS (il rt : Bool) (b : Block) : Bool := okFBS false il rt b
+abbrev okGArmsS (il rt : Bool) (arms : List (List Expr × Expr)) : Bool := okFArmsS false il rt arms
+
 
 mutual
 def depthGS : Stmt → Nat
@@ -475,6 +497,7 @@ def depthGS : Stmt → Nat
   | .exprS _ (.matchE _ _ c arms (some (.blockE db))) => max (depthGE c) (max (depthGArmsS arms) (depthGBS db)) + 2
   | .whileS _ c body => max (depthGE c) (depthGBS body) + 1
   | .loopS _ body => depthGBS body + 1
+  | .forS _ _ _ (.range _ a b _) (.mk _ _ stmts _) => max (depthGE a) (max (depthGE b) (depthGSs stmts)) + 2
   | .ret _ (some e) => depthGE e + 1
   | _ => 1
 def depthGSs : List Stmt → Nat
@@ -549,6 +572,16 @@ def wsGS (mod fn : String) (φ : String → Option String) : List (String × Str
     wsGBS mod fn φ (((freshLabel mod (freshLabel mod env.lm "loop_head").2 "loop_end").1,
         (freshLabel mod env.lm "loop_head").1) :: loops) body
       { env with lm := (freshLabel mod (freshLabel mod env.lm "loop_head").2 "loop_end").2 }
+  | loops, .forS _ name _ (.range _ a b _) (.mk _ _ stmts none), env =>
+    let head := freshLabel mod env.lm "loop_head"
+    let upd := freshLabel mod head.2 "loop_update"
+    let after := freshLabel mod upd.2 "loop_end"
+    let ca := cgE mod (ρS env.scopes) φ a after.2
+    let cb := cgE mod (ρS env.scopes) φ b ca.2
+    let fit := freshVar mod { env with scopes := [] :: env.scopes, lm := cb.2 } ("$iter_" ++ name)
+    let fhv := freshVar mod fit.2 name
+    wsGE env.scopes φ a && wsGE env.scopes φ b &&
+      wsGSs mod fn φ ((after.1, upd.1) :: loops) stmts fhv.2
   | _, .ret _ (some e), env => wsGE env.scopes φ e && (ρS env.scopes (cleanupKey mod fn)).isSome
   | _, _, _ => true
 def wsGSs (mod fn : String) (φ : String → Option String) : List (String × String) → List Stmt → CEnv → Bool
@@ -580,6 +613,7 @@ def identsGS : Stmt → List String
   | .exprS _ (.matchE _ _ c arms (some (.blockE db))) => namesGE c ++ (identsGArmsS arms ++ identsGBS db)
   | .whileS _ c body => namesGE c ++ identsGBS body
   | .loopS _ body => identsGBS body
+  | .forS _ name _ (.range _ a b _) (.mk _ _ stmts _) => name :: (namesGE a ++ (namesGE b ++ identsGSs stmts))
   | .ret _ (some e) => namesGE e
   | _ => []
 def identsGSs : List Stmt → List String
